@@ -105,7 +105,7 @@ def check(run):
     jbin = vlib.build_judge('sync')
     rng = run.rng
     quick = run.tier == 'quick'
-    n_small, n_big, n_e2e = (40, 120, 150) if quick else (120, 400, 600)
+    n_small, n_big, n_e2e = (40, 120, 150) if quick else (400, 1500, 4000)
     reqs = []   # (scenario, ls, ld, sched, group)
     for g in range(n_small):
         sc = clean_scenario(rng, True)
@@ -127,7 +127,7 @@ def check(run):
             rng.shuffle(s)
             reqs.append((sc, ls, ld, ''.join(s), 'big%d' % g))
         run.count('sampled-groups')
-    for g in range(6 if quick else 60):               # large listings (sorting / batching bugs only show beyond a few dozen entries)
+    for g in range(6 if quick else 200):               # large listings (sorting / batching bugs only show beyond a few dozen entries)
         sc = big_scenario(rng, rng.choice([45, 70, 120]))
         ls0 = scripted.model_listing(jbin, sc.src)
         ld0 = scripted.model_listing(jbin, sc.dest) if sc.dest.get('', {}).get('k') == 'dir' else []
